@@ -11,11 +11,15 @@ RULE = ("one case = (method, direction, dense flag, 1..6 event functions g=s*(h-
         "sign change over a recorded step in an accepted direction (or an exact zero on a grid point between opposite signs) requires a reported "
         "event of that function inside the step; misses are attributed with the wrapped root_finder/handle_events trace; non-trivial = >=1 "
         "crossing step observed; distinct by (method,direction,dense,scale decades,#events,seed)")
-ASSUMPTIONS = ["a crossing is counted only when |g| at both step ends exceeds 1e3*eps*|s|*(|h|+|c|) (rounding guard)"]
+ASSUMPTIONS = ["derivative-dependent events: a crossing is counted only when |g| at both step ends exceeds 1e3*eps*|s|*(|h|+|c|) (the slope handed to the "
+               "event function comes from the interpolant); all other families are judged on the strict signs at the recorded rows",
+               "terminal runs: only the rows actually recorded (up to the stop) are judged"]
 FLOORS = {"quick": {"crossing_steps_fwd_dense": 50, "crossing_steps_fwd_nodense": 50, "crossing_steps_bwd_dense": 50, "crossing_steps_bwd_nodense": 50,
-                    "boundary_crossings": 4, "root_finder_calls_traced": 2000},
+                    "boundary_crossings": 4, "root_finder_calls_traced": 2000, "near_boundary_crossings_end": 8, "near_boundary_crossings_start": 8,
+                    "crossings_in_terminal_runs_fwd": 10, "crossings_in_terminal_runs_bwd": 10, "crossings_sharing_the_terminal_step": 6, "terminal_stops": 20},
           "thorough": {"crossing_steps_fwd_dense": 500, "crossing_steps_fwd_nodense": 500, "crossing_steps_bwd_dense": 500, "crossing_steps_bwd_nodense": 500,
-                       "boundary_crossings": 40, "root_finder_calls_traced": 20000}}
+                       "boundary_crossings": 40, "root_finder_calls_traced": 20000, "near_boundary_crossings_end": 40, "near_boundary_crossings_start": 40,
+                       "crossings_in_terminal_runs_fwd": 60, "crossings_in_terminal_runs_bwd": 60, "crossings_sharing_the_terminal_step": 30, "terminal_stops": 100}}
 QUICK_METHODS = ["RK45CKSolver", "DOPRI45", "RK4Solver", "EulerSolver", "RK8713MSolver", "ABAs5o6HSolver", "SymplecticEulerSolver",
                  "BackwardEuler", "RadauIIA5", "GaussLegendre4", "HeunEulerSolver", "MidpointSolver"]
 CASE_TIMEOUT = 900
@@ -43,7 +47,69 @@ def gen_cases(tier, seed):
             for dense in (True, False):
                 cases.append(dict(kind="boundary", method=name, direction=d, dense=dense, t0=0.0 if d > 0 else 2.0, tf=2.0 if d > 0 else 0.0,
                                   nsteps=32.0, nev=3, pseed=int(rng.integers(1 << 30)), cost=3))
+    # crossings a few ulps inside a step end: the level of the event is the value at a recorded row of an event-free reference run, shifted by
+    # +-1..5 ulps, so that g at that row is tiny, non-zero and has (or has not yet) changed sign
+    nb = ["RK4Solver", "EulerSolver", "ABAs5o6HSolver", "RK45CKSolver"] if tier == "quick" else [n for n in M if M[n]["explicit"]]
+    for name in nb:
+        for d in (1, -1):
+            for dense in (True, False):
+                for r in range(reps):
+                    t0 = float(rng.uniform(-3, 3))
+                    cases.append(dict(kind="near_boundary", method=name, direction=d, dense=dense, t0=t0, tf=t0 + d * float(rng.uniform(2.0, 4.0)),
+                                      nsteps=float(rng.uniform(24, 40)), nev=6, pseed=int(rng.integers(1 << 30)), cost=4))
+    # a terminal event sharing its step with non-terminal crossings met before (and after) it
+    tm_ = ["RK4Solver", "RK45CKSolver", "DOPRI45", "ABAs5o6HSolver", "BackwardEuler", "RK8713MSolver"] if tier == "quick" else list(M)
+    for name in tm_:
+        for d in (1, -1):
+            for dense in (True, False):
+                for r in range(2 * reps):
+                    t0 = float(rng.uniform(-4, 4))
+                    cases.append(dict(kind="terminal_mix", method=name, direction=d, dense=dense, t0=t0, tf=t0 + d * float(rng.uniform(3.0, 6.0)),
+                                      nsteps=float(rng.uniform(12, 30)), nev=int(rng.integers(3, 7)), pseed=int(rng.integers(1 << 30)),
+                                      cost=(3 if M[name]["explicit"] else 12)))
     return cases
+
+
+def _shift(x, n):
+    x = np.float64(x)
+    for _ in range(abs(int(n))):
+        x = np.nextafter(x, np.float64(np.inf if n > 0 else -np.inf))
+    return float(x)
+
+
+def _near_boundary_events(spec, prob, info, f, y0, t0, tf, rng, dim, rec):
+    """event levels from the rows of an event-free reference run of the same system (same steps: non-terminal events never change them)"""
+    ref = sysrun.make_system(f, y0, t0, tf, abs(tf - t0) / spec["nsteps"], info["cls"], dense=spec["dense"], rtol=1e-6, atol=1e-8)
+    seg = sysrun.call_integrate(ref, max_steps=20000)
+    if seg["raised"]:
+        return [], None
+    t = np.asarray(ref.t)
+    y = np.asarray(ref.y)
+    out = []
+    tries = 0
+    while len(out) < spec["nev"] and tries < 60 and len(t) > 6:
+        tries += 1
+        k = int(rng.integers(2, len(t) - 2))
+        kind = str(rng.choice(["component", "linear", "time", "norm2"]))
+        es = {"kind": kind, "scale": float(10 ** rng.uniform(-6, 6)) * float(rng.choice([-1, 1])), "direction": 0, "terminal": False}
+        if kind == "component":
+            es["i"] = int(rng.integers(dim))
+        elif kind == "linear":
+            es["w"] = [float(x) for x in rng.uniform(-1, 1, dim)]
+        es["c"] = 0.0
+        e0 = Ev(es, dim)
+        hv = [float(e0.h(np.asarray(t[j]), np.asarray(y[j]))) for j in (k - 1, k, k + 1)]
+        if not ((hv[0] - hv[1]) * (hv[2] - hv[1]) < 0 and abs(hv[0] - hv[1]) > 1e-6 * (1 + abs(hv[1])) and abs(hv[2] - hv[1]) > 1e-6 * (1 + abs(hv[1]))):
+            continue      # h is not strictly monotone through row k
+        n = int(rng.choice([-5, -2, -1, 1, 2, 5]))
+        es["c"] = _shift(hv[1], n)
+        going_up = hv[2] > hv[0]
+        if rng.random() < 0.5:
+            es["direction"] = int(1 if (going_up == (es["scale"] > 0)) else -1)     # the direction this crossing has, along the integration
+        es["near_row"] = k
+        es["ulps"] = n
+        out.append(es)
+    return out, (t, y)
 
 
 def run_case(spec):
@@ -57,9 +123,30 @@ def run_case(spec):
     dt_ = np.dtype("float64")
     eps = float(np.finfo(dt_).eps)
     evspecs = []
+    ref_rows = None
+
+    def f(t, y, **kw):
+        return prob.rhs(t, y)
+    y0 = prob.ystar(t0).astype(dt_)
+    L = abs(tf - t0)
     if spec["kind"] == "boundary":
         for c in (0.5, 1.0, 1.5):
             evspecs.append({"kind": "time", "scale": float(10 ** rng.uniform(-3, 3)) * float(rng.choice([-1, 1])), "c": c, "direction": 0, "terminal": False})
+    elif spec["kind"] == "near_boundary":
+        evspecs, ref_rows = _near_boundary_events(spec, prob, info, f, y0, t0, tf, rng, dim, None)
+        if not evspecs:
+            rec0 = util.Rec(sig="nb-none")
+            rec0.skipped = "no monotone row found for a near-boundary level"
+            return rec0.out()
+    elif spec["kind"] == "terminal_mix":
+        h = L / spec["nsteps"]
+        tau = t0 + float(rng.uniform(0.3, 0.8)) * (tf - t0)
+        evspecs.append(random_event_spec(rng, prob, t0, tf, dim, terminal=True, kinds=["time", "component", "linear"], tm=tau))
+        evspecs[0]["direction"] = 0
+        for j in range(spec["nev"] - 1):
+            before = j < max(1, spec["nev"] - 2)
+            off = float(rng.uniform(0.04, 0.85)) * h * (-d if before else d)
+            evspecs.append(random_event_spec(rng, prob, t0, tf, dim, terminal=False, kinds=["time", "component", "linear", "norm2"], tm=tau + off))
     else:
         for _ in range(spec["nev"]):
             evspecs.append(random_event_spec(rng, prob, t0, tf, dim, terminal=False))
@@ -75,11 +162,6 @@ def run_case(spec):
     decs = sorted(set(int(np.floor(np.log10(abs(e.s)))) for e in events))
     rec = util.Rec(sig="%s|%d|%s|%s|%d|%d" % (spec["method"], d, spec["dense"], decs, len(events), spec["pseed"] % 11))
     feats = {"method": spec["method"], "family": info["family"], "direction": d, "dense": bool(spec["dense"]), "case_kind": spec["kind"]}
-
-    def f(t, y, **kw):
-        return prob.rhs(t, y)
-    y0 = prob.ystar(t0).astype(dt_)
-    L = abs(tf - t0)
     system = sysrun.make_system(f, y0, t0, tf, L / spec["nsteps"], info["cls"], dense=spec["dense"], rtol=1e-6, atol=1e-8)
     trace = DetectionTrace()
     try:
@@ -98,12 +180,28 @@ def run_case(spec):
     for e in system.events:
         reported.setdefault(id(e.event), []).append(float(e.t))
     key = "crossing_steps_%s_%s" % ("fwd" if d > 0 else "bwd", "dense" if spec["dense"] else "nodense")
+    nterm = sum(1 for e in system.events if getattr(e.event, "is_terminal", False))
+    # rows recorded while landing on the terminal root (the rolled-back step is re-integrated in sub-steps): from the detection trace
+    landing_rows = 0
+    term_step = None
+    if nterm:
+        rec.bump("terminal_stops")
+        term_steps = [st for st in trace.steps if st.get("terminate")]
+        if term_steps:
+            term_step = term_steps[-1]
+            a_, b_ = sorted([term_steps[-1]["t_prev"], term_steps[-1]["t_next"]])
+            landing_rows = int(np.sum((t > a_) & (t <= b_))) if d > 0 else int(np.sum((t >= a_) & (t < b_)))
+    if ref_rows is not None:
+        same = len(ref_rows[0]) == len(t) and np.array_equal(ref_rows[0], t) and np.array_equal(ref_rows[1], y)
+        rec.bump("near_boundary_rows_identical_to_reference" if same else "near_boundary_rows_differ_from_reference")
     ncross = 0
     tmax = float(np.max(np.abs(t)))
     ymax = float(np.max(np.abs(y)))
     for j, ev in enumerate(events):
         g = np.array([ev.value(t[k], y[k], lambda tt, yy: prob.rhs(tt, yy)) for k in range(len(t))])
-        guard = 1e3 * eps * ev.gscale(tmax if ev.kind == "time" else ymax)
+        # every family but the derivative-dependent one is a deterministic function of (t, y) and the step's interpolant returns the recorded
+        # rows bit-exactly at its end points: the detection sees exactly the signs computed here, so no rounding guard is needed
+        guard = 1e3 * eps * ev.gscale(tmax if ev.kind == "time" else ymax) if ev.kind == "dstate" else 0.0
         times = reported.get(id(ev), [])
         k = 0
         while k < len(t) - 1:
@@ -124,9 +222,19 @@ def run_case(spec):
                     rec.bump(key)
                     if kind == "boundary":
                         rec.bump("boundary_crossings")
+                    if spec["kind"] == "near_boundary" and min(abs(a), abs(b)) <= 64 * eps * ev.gscale(tmax if ev.kind == "time" else ymax):
+                        rec.bump("near_boundary_crossings")
+                        rec.bump("near_boundary_crossings_%s" % ("end" if abs(b) < abs(a) else "start"))
+                    if spec["kind"] == "terminal_mix":
+                        rec.bump("crossings_in_terminal_runs_%s" % ("fwd" if d > 0 else "bwd"))
+                        if nterm and (k2 >= len(t) - 1 - landing_rows):
+                            rec.bump("crossings_sharing_the_terminal_step")
                     lo, hi = sorted([float(t[k]), float(t[k2])])
-                    if not any(lo <= te <= hi for te in times):
-                        mech = _attribute(trace, j, lo, hi)
+                    # the stop lands on the terminal root to within the end-of-span tolerance of the integration loop (C09 judges how closely)
+                    slack = 64 * eps * max(1.0, tmax) if ev.is_terminal else 0.0
+                    if not any(lo - slack <= te <= hi + slack for te in times):
+                        in_landing = term_step is not None and k2 >= len(t) - 1 - landing_rows and k >= len(t) - 1 - landing_rows
+                        mech = _attribute_landing(term_step, j, lo, hi) if in_landing else _attribute(trace, j, lo, hi)
                         rec.violate("missed_crossing", mech, dict(feats, ev_kind=ev.kind, scale_decade=int(np.floor(np.log10(abs(ev.s)))), crossing=kind),
                                     step=[float(t[k]), float(t[k2])], g_ends=[float(a), float(b)], reported_times=times[:6], event=ev.spec)
             k = k2 if kind == "boundary" else k + 1
@@ -134,6 +242,20 @@ def run_case(spec):
     rec.sample = {"spec": {k: spec[k] for k in ("kind", "method", "direction", "dense", "t0", "tf", "nsteps")}, "events": evspecs[:3], "crossing_steps": ncross,
                   "reported": len(system.events), "rows": len(t)}
     return rec.out()
+
+
+def _attribute_landing(st, j, lo, hi):
+    """a crossing over one of the sub-steps that land on a terminal root: the rolled-back step `st` is the only one event detection saw."""
+    if st.get("fa") is None:
+        return "unattributed_landing_crossing"
+    fa, fb = st["fa"][j], st["fb"][j]
+    if fa * fb > 0:
+        return "landing_substeps_of_a_terminal_stop_are_not_monitored"    # even number of crossings inside the rolled-back step
+    r = st["roots"][j]
+    tol = 1e-9 * max(1.0, abs(lo), abs(hi))
+    if st["success"][j] and lo - tol <= r <= hi + tol:
+        return "root_located_in_the_rolled_back_step_before_the_terminal_root_but_not_reported"
+    return "landing_substeps_of_a_terminal_stop_are_not_monitored"        # the root located over the rolled-back step is another crossing of this function
 
 
 def _attribute(trace, j, lo, hi):
